@@ -7,7 +7,7 @@ from harness.core import Violation, HarnessError
 from refs import ref_trxd
 from refs.trx_model import Model, NOISE
 
-CLAUSES = {"reply", "routing", "metadata", "drop", "queue", "power", "clock", "ports"}
+CLAUSES = {"reply", "routing", "metadata", "drop", "queue", "power", "clock", "ports", "settings"}
 
 
 class Session:
@@ -23,6 +23,17 @@ class Session:
         if len(self.app.trx) != self.n:
             raise Violation("%s:startup:transceiver-count" % self.pid, "app has %d transceivers, configuration defines %d" % (
                 len(self.app.trx), self.n))
+        if self.on("ports"):
+            exp = set()
+            for t in self.model.trx:
+                exp.add(t.sock("ctrl"))
+                exp.add(t.sock("data"))
+                if t.has_clck:
+                    exp.add(t.sock("clck"))
+            got = set(self.app.net.bound)
+            if got != exp:
+                raise Violation(self.sig("ports", "bound-sockets"), "bound %s, documented port plan %s" % (
+                    sorted(got - exp) or "-", sorted(exp - got) or "-"))
         # spy on the forwarder: direct observation of "put on the air"
         self.air = []
         fwd = self.app.app.burst_fwd
@@ -99,9 +110,40 @@ class Session:
                             raise Violation(self.sig("reply", "results:%s" % verb), "%r answered %r, expected a value in %r" % (text, rsp, e[1]))
                     elif g != e:
                         raise Violation(self.sig("reply", "results:%s" % verb), "%r answered %r, expected result %r" % (text, rsp, e))
+            # FAKE_TRXC_DELAY: the reply is held back by the configured delay (virtualised sleep)
+            slept = self.app.sleeper.slept
+            exp_sleep = [mt.delay_ms / 1000.0] if mt.delay_ms > 0 else []
+            if strict and [round(x, 6) for x in slept] != [round(x, 6) for x in exp_sleep]:
+                raise Violation(self.sig("reply", "trxc-delay"), "reply delayed by %r s, configured delay %d ms" % (slept, mt.delay_ms))
+        self.app.sleeper.slept = []
         if check_state and self.on("power"):
             self.check_power()
+        if check_state and self.on("settings") and strict:
+            self.check_settings(i)
         return out
+
+    def check_settings(self, i):
+        a, m = self.app.trx[i], self.model.trx[i]
+        try:
+            got = {"ver": a.data_if._hdr_ver, "ta": a.ta, "att": a.tx_att_base, "muted": bool(a.rf_muted),
+                   "rx": a._rx_freq, "tx": a._tx_freq, "toa": (a.toa256_base, a.toa256_rand_threshold),
+                   "ci": (a.ci_base, a.ci_rand_threshold), "fake_rssi": bool(a.fake_rssi_enabled),
+                   "drop": (a.burst_drop_amount, a.burst_drop_period)}
+        except AttributeError as e:
+            raise HarnessError("state named in the property anchors is gone: %r" % (e,))
+        exp = {"ver": m.ver, "ta": m.ta, "att": m.att, "muted": m.muted, "rx": m.rx, "tx": m.tx,
+               "toa": (m.toa_base, m.toa_thr), "ci": (m.ci_base, m.ci_thr), "fake_rssi": m.fake_rssi}
+        for k, v in exp.items():
+            if got[k] != v:
+                raise Violation(self.sig("settings", k), "transceiver %d: %s is %r after the command, documented effect gives %r" % (i, k, got[k], v))
+        if m.fake_rssi and (a.rssi_base, a.rssi_rand_threshold) != (m.rssi_base, m.rssi_thr):
+            raise Violation(self.sig("settings", "rssi"), "fake RSSI window (%r, %r), expected (%r, %r)" % (
+                a.rssi_base, a.rssi_rand_threshold, m.rssi_base, m.rssi_thr))
+        if got["drop"][0] not in m.drop or got["drop"][1] != m.drop_period:
+            raise Violation(self.sig("settings", "drop"), "drop budget/period %r, expected %r/%r" % (got["drop"], sorted(m.drop), m.drop_period))
+        if (a.fh is not None) and m.fh is not None:
+            if (a.fh.hsn, a.fh.maio, list(a.fh.ma)) != (m.fh[0], m.fh[1], list(m.fh[2])):
+                raise Violation(self.sig("settings", "hopping"), "hopping parameters %r, expected %r" % ((a.fh.hsn, a.fh.maio, len(a.fh.ma)), (m.fh[0], m.fh[1], len(m.fh[2]))))
 
     def raw_ctrl(self, i, data, src=None):
         """a datagram without the CMD prefix: nothing may be sent"""
@@ -248,8 +290,8 @@ class Session:
                 if dec is None or dec["fn"] != b["fn"] or dec["tn"] != b["tn"]:
                     continue
             if nxt is None:
-                if routing or (e.kind == "nope" and self.on("drop")):
-                    raise Violation(self.sig("routing" if (routing or e.kind == "burst") else "drop", "missing-%s" % e.kind),
+                if routing or self.on("drop"):
+                    raise Violation(self.sig("routing" if routing else "drop", "missing-%s" % e.kind),
                                     "tick %d: transceiver %d (%s) got nothing for burst fn=%d tn=%d from %d" % (
                                         fn, ri, r.name, b["fn"], b["tn"], si))
                 continue
@@ -265,7 +307,7 @@ class Session:
                 except ValueError:
                     kinds.append("garbage")
             why = "not-running" if not r.running else "unexpected"
-            raise Violation(self.sig("routing", "extra-datagram:%s" % why), "tick %d: transceiver %d (%s, running=%r) received %s it must not get" % (
+            raise Violation(self.sig("routing" if routing else "drop", "extra-datagram:%s" % why), "tick %d: transceiver %d (%s, running=%r) received %s it must not get" % (
                 fn, ri, r.name, r.running, kinds))
 
     def model_nope(self, r, b):
